@@ -189,3 +189,57 @@ def k_distinct_list_agg_order(a: int, b: int) -> bool:
   """
   return run_agg(S.DistinctListAgg, [(a,), (b,)]) == run_agg(S.DistinctListAgg, [(b,), (a,)])
 '''
+
+
+# ---- UDF calls must not interfere with each other (state shared between calls / rows / queries)
+# Note: CrossHair neutralises functools.lru_cache inside traced code (a first version of this kernel
+# came back "Confirmed" on a tree where a memoised LoadJson + an in-place sort did interfere); the
+# choices are therefore branched on first and the calls run natively, with the real json module.
+SEQ_HEAD = r'''
+import itertools
+from common import sqlite3_logica as S
+
+PERMS = [list(p) for p in itertools.permutations([3, 1, 2])] + [list(p) for p in itertools.permutations(['q', 'p', 'r'])]
+UDF_NAMES = ['sort', 'join', 'concat_self', 'in_list', 'concat_item']
+
+
+def apply_udf(which, x, item):
+  import json
+  if which == 0:
+    return S.SortList(x)
+  if which == 1:
+    return S.Join(x, '-')
+  if which == 2:
+    return S.ArrayConcat(x, x)
+  if which == 3:
+    return S.InList(item, x)
+  return S.ArrayConcat(x, json.dumps([item]))
+
+
+def interfere_ok(p, f, g):
+  # the same list text is seen by UDF g, then by UDF f, then by g again (same row, a later row or
+  # a later query of the process): g must answer as before
+  import json
+  x = json.dumps(PERMS[p])
+  first = apply_udf(g, x, PERMS[p][0])
+  apply_udf(f, x, PERMS[p][1])
+  again = apply_udf(g, x, PERMS[p][0])
+  return first == again
+
+
+def k_udf_calls_do_not_interfere(perm: int, f: int, g: int) -> bool:
+  """
+  pre: 0 <= perm < 12 and 0 <= f < 5 and 0 <= g < 5
+  post: _
+  """
+  p = concretise(perm, 12)
+  ff = concretise(f, 5)
+  gg = concretise(g, 5)
+  with untraced():
+    return interfere_ok(p, ff, gg)
+'''
+
+
+def seq_source():
+  from .. import variants
+  return variants.UNTRACED + SEQ_HEAD, ['k_udf_calls_do_not_interfere']
